@@ -1472,6 +1472,11 @@ impl Vm {
         Call::Err(LyError::Exit(code)) => self.set_exit(code),
       },
       NativeEnvironment::Normal => {
+        // natives with their own frame count towards the call depth limit
+        if self.fiber.frames().len() >= MAX_FRAME_SIZE {
+          return self.runtime_error_from_str(self.builtin.errors.runtime, "Stack overflow.");
+        }
+
         let mut stub = self.native_fun_stubs.pop().unwrap_or_else(|| {
           self.manage_obj(Fun::stub(
             &GcHooks::new(self),
